@@ -148,10 +148,23 @@ func (w *joeWriter) call(kind string, m *sse.Message) error {
 		w.cancel()
 	}
 	if fail {
+		// a subscriber's own error may well be, or wrap, a context error (a write deadline of its own, a cancelled
+		// upstream) while the context given to Subscribe is live: it is that subscriber's error all the same
+		switch (w.idx + w.failAt) % 3 {
+		case 0:
+			return ownCtxErr{context.Canceled}
+		case 1:
+			return ownCtxErr{context.DeadlineExceeded}
+		}
 		return errOwn
 	}
 	return nil
 }
+
+type ownCtxErr struct{ inner error }
+
+func (e ownCtxErr) Error() string   { return errOwn.Error() + ": " + e.inner.Error() }
+func (e ownCtxErr) Unwrap() []error { return []error{errOwn, e.inner} }
 
 // Send does what the library's own Session does with the message: it writes it out
 func (w *joeWriter) Send(m *sse.Message) error {
@@ -342,7 +355,7 @@ func drawScenario(rng *rand.Rand, big bool) joeScenario {
 		sc.pubs = append(sc.pubs, pb)
 	}
 	for i := 0; i < ns; i++ {
-		s := joeSub{topics: drawTopics(false), last: "-", cancel: "-", startAt: "0"}
+		s := joeSub{topics: drawTopics(rng.Intn(3) == 0), last: "-", cancel: "-", startAt: "0"} // (a subscription to no topic at all is one too: it receives nothing and is released like any other)
 		if np > 0 && rng.Intn(3) == 0 {
 			s.startAt = fmt.Sprintf("p%d", rng.Intn(np))
 			if rng.Intn(3) != 0 {
